@@ -2,6 +2,9 @@
 import importlib
 
 _MODULES = {
+    "C01": ("scen_fs", "C01"),
+    "C02": ("scen_fs", "C02"),
+    "C03": ("scen_fs", "C03"),
     "C04": ("scen_api", "C04"),
     "C05": ("scen_api", "C05"),
     "C06": ("scen_api", "C06"),
